@@ -78,11 +78,11 @@ def shrink(pools, pm, trace, target_cls, known, max_cands=300, log=None):
     def probe(t):
         if not t["steps"]:
             return None
-        res = pools.run_one({"seed": t.get("seed"), "trace": t})
+        res = engine.run_trace(pools, t)
         if "harness_error" in res:
             return None
         for v in res["viol"]:
-            if v["cls"][:2] == target_cls[:2] and v["cls"][3] == target_cls[3] \
+            if v["cls"][:2] == target_cls[:2] and v["cls"][3:] == target_cls[3:] \
                     and not engine.match_known(known, pm.finding_tags(t, v)):
                 if v.get("explicit"):
                     continue
@@ -171,6 +171,9 @@ def run_check(pid, tier, seed, budget=None, time_cap=None, repo_root=None, write
             if r2.get("hist") != r["hist"]:
                 det_mismatch.append(r["seed"])
         # ---- triage
+        if hasattr(pm, "cross_check"):
+            for res, v in pm.cross_check(results):
+                res["viol"].append(v)
         out_lines = []
         known_hits = {}
         unknown = {}
@@ -194,15 +197,17 @@ def run_check(pid, tier, seed, budget=None, time_cap=None, repo_root=None, write
         for cls, items in sorted(unknown.items()):
             shrink_log.append(f"unlisted violation class {list(cls)}: {len(items)} occurrence(s), "
                               f"e.g. seed {items[0][0]['seed']}: {items[0][1]['detail'][:160]}")
-        for cls, items in sorted(unknown.items())[:4]:
+        for cls, items in sorted(unknown.items())[:6]:
             res, v = min(items, key=lambda it: (len(it[0]["job"]["trace"]["steps"]), it[0]["seed"]))
             trace = _explicit_trace(res["job"]["trace"], v)
+            if v.get("other_world"):
+                trace = dict(trace, compare_world=v["other_world"])
             mt, mv = shrink(pools, pm, trace, list(cls), known, log=shrink_log)
             if mv is None:
                 harness_errors.append({"seed": res["seed"],
                                        "harness_error": f"violation {cls} did not reproduce on re-execution: {v['detail'][:300]}"})
                 continue
-            path = engine.save_replay(mt, mv, f"{pid}-{res['seed']}-{cls[1]}-{cls[2]}-{cls[3]}.json")
+            path = engine.save_replay(mt, mv, f"{pid}-{res['seed']}-{'-'.join(str(c) for c in cls[1:] if c)}.json".replace("/", "_"))
             code, rr, txt = engine.replay_fresh(path)
             if code != 1 or not rr or not any(x["cls"][:2] == list(cls)[:2] for x in rr.get("violations", [])):
                 harness_errors.append({"seed": res["seed"],
